@@ -350,6 +350,19 @@ theorem deliver_keeps_invariant (U : List Block) (E : List Nat) (c : Chain) (hi 
   have hc1 := deliverG_complete hi' hU b hb hpd E hc
   exact ⟨(chainInv_iff (by rw [h2]; exact hU)).mpr ⟨h1, by rw [h2]; exact hc1⟩, h3, h4⟩
 
+-- OPEN: two Go panics have no counterpart in the model, so "never panics" above does not cover them:
+--   (1) BlockDB.BlockInvalid → "Trusted block cannot be invalid" when DeleteBranch (or delAllChildren) flags a block whose
+--       store record carries the trusted mark. Full statement: in every state reached by a history (`ChainInv`), whenever
+--       ParseTillBlock's `commitTxs` refuses the stored block `nx`, no block of `subtree nx` is stored with `trusted = true`.
+--       Informal argument: the mark is set only after `commitTxs` accepted the block on the replay of its own branch
+--       (`Ext` / `TrustedOK`), ids determine branches, `commitTxs` is a function of (map, height, block) — so a marked block
+--       and every ancestor of it connect again. Needs an invariant "every marked block is valid on the replay of its
+--       branch" carried through PSpec/ASpec/MSpec; not done. The harness observes this panic as an outcome (corpus
+--       scenario invalid-parent-with-child-after-idle is the witness of the fix of one such case).
+--   (2) BlockTreeNode.delChild → "Child not found" unless the node occurs EXACTLY once in its parent's `Childs`. `TreeWF.par`
+--       gives "at least once"; "at most once" (`Nodup` of every child list: AcceptHeader appends a node only when its id is
+--       not in BlockIndex) is not part of `TreeWF` — `deleteBranch_keeps_sibling_order` takes it as a hypothesis.
+
 /-- **Only invalid blocks and their descendants are ever removed, and an admitted block is in the tree or excused** (one
 delivery; part (a) of the invariant, stated for the step): from a state satisfying the invariant, (1) every node of the
 tree that is no longer a node after the delivery is `Excused` — it, or one of its ancestors in the block tree, fails
